@@ -27,6 +27,7 @@ func (e *Engine) VerifyFunc(key string, small bool) *FnCtx {
 	ctr := e.Spec.Funcs[key]
 	fc := e.newFnCtx(key, fn, ctr)
 	fc.P.small = small
+	fc.rgMode = e.rgNext
 	if fn == nil {
 		fc.errf("binding: no function %s in the current tree", key)
 		return fc
@@ -395,6 +396,27 @@ func (e *Engine) VerifyLemma(l *Lemma, small bool) *FnCtx {
 	for k, g := range goals {
 		fc.obls = append(fc.obls, &Obl{Func: "lemma", Kind: "lemma", Label: l.Label, Site: fmt.Sprint(k), NFacts: len(fc.facts), Path: "true", Goal: g, Using: l.Using, Text: l.Text})
 	}
+	return fc
+}
+
+// VerifyGuarantee: the rely/guarantee pass of a function whose contract has guarantee clauses. The function is analysed once
+// more with interference: before each of its sync.Map steps the maps are replaced by arbitrary ones related to the previous
+// state by the rely clauses; each step must then satisfy every guarantee clause (two-state: old() = just before the step,
+// after interference). Only the guarantee obligations of this pass are kept; the function's sequential contract is the
+// business of VerifyFunc.
+func (e *Engine) VerifyGuarantee(key string) *FnCtx {
+	e.rgNext = true
+	fc := e.VerifyFunc(key, false)
+	e.rgNext = false
+	fc.key = key
+	var keep []*Obl
+	for _, o := range fc.obls {
+		if o.Kind == "guarantee" {
+			keep = append(keep, o)
+		}
+	}
+	fc.obls = keep
+	fc.rgOnly = true
 	return fc
 }
 
